@@ -692,6 +692,104 @@ func e11StressCase(seed uint64, n int) Case {
 	}}
 }
 
+
+// e11ResumeCase: a consumer stalls until its buffer has overrun, stays stalled
+// for a long (virtual) time while events keep coming, then resumes reading.
+// Before, during and after, its siblings receive everything, and once it has
+// made room it receives what is published from then on.
+func e11ResumeCase(seed uint64, n int) Case {
+	id := fmt.Sprintf("E11/stall-then-resume/%d/%d", seed, n)
+	stall := []time.Duration{50 * time.Millisecond, 3 * time.Second, 11 * time.Second, 65 * time.Second, 10 * time.Minute}[n%5]
+	return Case{ID: id, Desc: map[string]interface{}{"seed": seed, "n": n, "stalled_for": stall.String(), "what": "overrun, long stall with events trickling in, resume"}, Bubble: true, Run: func(r *Res) {
+		rng := kit.NewRng(kit.Mix(seed, uint64(n)+1170))
+		core := kit.NewCore(&kit.Plan{Seed: rng.U64(), PYield: 100, PSleep: 15, MaxSleep: 40 * time.Microsecond})
+		g := newRootRig(core, nil)
+		defer g.stop(r, "C12")
+		g.root.MakeReady()
+		u := smallUniverse()
+		pub := g.root.Publisher()
+		hs, _ := pub.Subscribe()
+		hm := startMirror("healthy sibling", hs.Events(), hs.Ready(), nil)
+		var lag kcache.Subscription
+		if n%2 == 0 {
+			lag, _ = pub.Subscribe()
+		} else {
+			cl, _ := pub.Clone()
+			lag, _ = cl.Subscribe()
+		}
+		g.barrier()
+		publish := func(k int) bool {
+			for i := 0; i < k; i++ {
+				done := make(chan error, 1)
+				go func() { _, err := g.mutate(rng, u); done <- err }()
+				select {
+				case err := <-done:
+					if err != nil {
+						r.V("C10", "publish-error", "%v", err)
+						return false
+					}
+				case <-time.After(time.Minute):
+					r.V("C10", "producer-blocked", "publishing an event did not complete within a minute of virtual time while one consumer had stalled for %v and resumed\n%s", stall, kit.CensusText(kit.Census(), 10))
+					return false
+				}
+				if i%20 == 19 {
+					g.barrier()
+				}
+			}
+			g.barrier()
+			return true
+		}
+		if !publish(kcache.EventBufsiz + 20) { // the lagging consumer overruns
+			return
+		}
+		// events keep trickling in while it stays stalled
+		for i := 0; i < 4; i++ {
+			time.Sleep(stall / 4)
+			if !publish(1) {
+				return
+			}
+		}
+		// it resumes: takes everything that is there
+		var got []evrec
+		for len(lag.Events()) > 0 {
+			e := <-lag.Events()
+			got = append(got, evrec{Type: e.Type(), Key: kit.Key(e.Resource()), RV: e.Resource().GetResourceVersion()})
+		}
+		g.barrier()
+		before := g.sentCount()
+		if !publish(5) {
+			return
+		}
+		for len(lag.Events()) > 0 {
+			e := <-lag.Events()
+			got = append(got, evrec{Type: e.Type(), Key: kit.Key(e.Resource()), RV: e.Resource().GetResourceVersion()})
+		}
+		sent := g.sent
+		checkExact(r, "healthy sibling of a consumer that stalled for "+stall.String()+" and resumed", hm.events(), sent)
+		r.Add("healthy-streams-checked", 1)
+		if nn, why := checkSubsequence(got, sent); nn < 0 {
+			r.V("C10", "slow-stream-not-subsequence", "resumed consumer: %s", why)
+		}
+		missing := 0
+		for _, e := range sent[before:] {
+			found := false
+			for _, x := range got {
+				if sameEvent(x, e) {
+					found = true
+				}
+			}
+			if !found {
+				missing++
+			}
+		}
+		r.Add("resumed-consumer-checks", 1)
+		if missing > 0 {
+			r.V("C10", "resumed-consumer-lost-events", "a consumer that had overrun, stayed stalled for %v and then emptied its buffer did not receive %d of the 5 events published afterwards", stall, missing)
+		}
+		r.Key(id)
+	}}
+}
+
 func init() {
 	register("E11", func(tier string, seed uint64) []Case {
 		var cases []Case
@@ -717,6 +815,9 @@ func init() {
 		}
 		for i := 0; i < tierPick(tier, 16, 2000); i++ {
 			cases = append(cases, e11StressCase(seed, i))
+		}
+		for i := 0; i < tierPick(tier, 20, 1000); i++ {
+			cases = append(cases, e11ResumeCase(seed, i))
 		}
 		return cases
 	})
